@@ -2,7 +2,6 @@
 from __future__ import annotations
 
 import collections
-import functools
 from typing import Any, Dict, List, Optional, Set, Tuple
 
 from hypothesis import strategies as st
@@ -19,13 +18,15 @@ RULE = ("generated states: a generated file-based world (0-7 vehicles on a few s
         "fleets exist); Dispatcher.generate_instructions is called once. Oracle, per fleet: vehicles distinct, requests distinct, every vehicle "
         "eligible by an independent re-statement of the rule (activity in configured set, driver available, range > matching threshold, not an "
         "under-charged base charger, member of the fleet), every request eligible (waiting, unassigned, of that fleet), #pairs = min(#eligible "
-        "vehicles, #eligible requests), total grid distance = optimum of an exact subset DP written for the harness. non-trivial = a fleet group "
-        "with n != m, both >= 2, >= 1 cost tie and >= 1 ineligible vehicle and request; distinct = sha1(case)")
+        "vehicles, #eligible requests), total grid distance = optimum of an exact subset DP written for the harness. (b) the same oracle on every run of the built-in "
+        "Dispatcher inside generated whole histories (recording proxy: the state it was handed and what it returned). non-trivial (a) = a fleet group "
+        "with n != m, both >= 2, >= 1 cost tie and >= 1 ineligible vehicle and request; (b) = history in which the dispatcher produced a pairing; "
+        "distinct = sha1(case)")
 ASSUMPTIONS = ["requests carry exactly one fleet iff fleets are configured (the loader drops the others)",
                "all sites lie within 3 km so the h3 grid distance is defined",
                "activities are assigned by class (the dispatcher reads the class name and, for base charging, the range), without entering them",
                "PYTHONHASHSEED pinned to 0"]
-FLOORS = {"quick": {"groups": 3000, "flag:rectangular": 100, "flag:cost_tie": 500, "flag:ineligible_vehicle": 500}, "thorough": {"groups": 100000}}
+FLOORS = {"quick": {"groups": 2000, "dispatcher_runs_in_histories": 2000, "flag:rectangular": 100, "flag:cost_tie": 500, "flag:ineligible_vehicle": 500}, "thorough": {"groups": 100000}}
 
 ACTS = ["Idle"] * 8 + ["Repositioning"] * 5 + ["ReserveBase", "ReserveBase", "ChargingBase", "DispatchBase", "DispatchStation", "ChargingStation",
         "ChargeQueueing", "DispatchTrip", "ServicingTrip", "OutOfService"]
@@ -49,21 +50,31 @@ def st_case(draw) -> Dict[str, Any]:
 
 
 def optimum(cost: List[List[int]]) -> int:
-    """min total cost of a matching of size min(n, m): exact DP over subsets of the larger side"""
+    """min total cost of a matching of size min(n, m): exact DP over subsets of the *smaller* side, scanning the larger side
+    (dp[mask] = cheapest way to have matched exactly the rows in mask using the columns seen so far)"""
     n, m = len(cost), (len(cost[0]) if cost else 0)
     if n == 0 or m == 0:
         return 0
     if n > m:
         cost = [list(r) for r in zip(*cost)]
         n, m = m, n
-
-    @functools.lru_cache(None)
-    def f(i: int, mask: int) -> int:
-        if i == n:
-            return 0
-        return min(cost[i][j] + f(i + 1, mask | 1 << j) for j in range(m) if not mask >> j & 1)
-
-    return f(0, 0)
+    INF = float("inf")
+    dp = [INF] * (1 << n)
+    dp[0] = 0
+    for j in range(m):
+        nxt = list(dp)  # column j left unmatched
+        for mask in range(1 << n):
+            base = dp[mask]
+            if base == INF:
+                continue
+            for i in range(n):
+                if not mask >> i & 1:
+                    c = base + cost[i][j]
+                    k = mask | 1 << i
+                    if c < nxt[k]:
+                        nxt[k] = c
+        dp = nxt
+    return dp[(1 << n) - 1]
 
 
 def _set_activity(sim, v, act: str, base_id: str, station_id: str, rid: Optional[str], req):
@@ -87,6 +98,80 @@ def _set_activity(sim, v, act: str, base_id: str, station_id: str, rid: Optional
         "OutOfService": lambda: out_of_service.OutOfService.build(vid),
     }[act]()
     return ops.modify_vehicle_safe(sim, v.modify_vehicle_state(s)).unwrap()
+
+
+def judge(sim, env, instructions, fleets, valid_states, flags: Set[str], stats) -> List[Violation]:
+    """the C12 oracle for one dispatcher run: `instructions` is what Dispatcher.generate_instructions returned for `sim`"""
+    import h3
+
+    out: List[Violation] = []
+    cfg = env.config.dispatcher
+    thr = float(cfg.matching_range_km_threshold)
+    base_thr = float(cfg.base_charging_range_km_threshold)
+
+    def v_eligible(v, f) -> bool:
+        rng = env.mechatronics[v.mechatronics_id].range_remaining_km(v)
+        return (type(v.vehicle_state).__name__.lower() in valid_states and bool(v.driver_state.available)
+                and (f is None or f in v.membership.memberships)
+                and not (type(v.vehicle_state).__name__ == "ChargingBase" and rng < base_thr) and rng > thr)
+
+    def r_eligible(r, f) -> bool:
+        return r.dispatched_vehicle is None and (f is None or f in r.membership.memberships)
+
+    groups: Dict[Any, list] = collections.defaultdict(list)
+    for i in instructions:
+        r = sim.requests.get(i.request_id)
+        if r is None:
+            out.append(Violation(PROP, "dispatcher names a request that is not waiting", {"request": i.request_id}))
+            continue
+        f = next(iter(r.membership.memberships)) if fleets else None
+        groups[f].append(i)
+    for f in (fleets or [None]):
+        ev = [v for v in sorted(sim.vehicles.values(), key=lambda x: x.id) if v_eligible(v, f)]
+        er = [r for r in sorted(sim.requests.values(), key=lambda x: x.id) if r_eligible(r, f)]
+        g = groups.get(f, [])
+        stats["groups"] += 1
+        evi, eri = {v.id for v in ev}, {r.id for r in er}
+        detail = {"fleet": f, "eligible_vehicles": sorted(evi), "eligible_requests": sorted(eri), "pairs": [(i.vehicle_id, i.request_id) for i in g]}
+        vs_, rs_ = [i.vehicle_id for i in g], [i.request_id for i in g]
+        if len(set(vs_)) != len(vs_):
+            out.append(Violation(PROP, "a vehicle is paired twice within one fleet", detail))
+        if len(set(rs_)) != len(rs_):
+            out.append(Violation(PROP, "a request is paired twice within one fleet", detail))
+        for i in g:
+            if i.vehicle_id not in evi:
+                v = sim.vehicles[i.vehicle_id]
+                why = ("not a member of the fleet" if f is not None and f not in v.membership.memberships else
+                       "driver off shift" if not v.driver_state.available else
+                       "activity not dispatchable" if type(v.vehicle_state).__name__.lower() not in valid_states else "not enough range")
+                out.append(Violation(PROP, f"an ineligible vehicle is paired ({why})", dict(detail, vehicle=i.vehicle_id)))
+            if i.request_id not in eri:
+                out.append(Violation(PROP, "an ineligible request is paired (already assigned or other fleet)", dict(detail, request=i.request_id)))
+        if not out and len(g) != min(len(ev), len(er)):
+            out.append(Violation(PROP, "number of pairs != min(eligible vehicles, eligible requests)", detail))
+        if not out and ev and er:
+            cost = [[h3.h3_distance(v.geoid, r.geoid) for r in er] for v in ev]
+            tot = sum(h3.h3_distance(sim.vehicles[i.vehicle_id].geoid, sim.requests[i.request_id].geoid) for i in g)
+            best = optimum(cost)
+            if tot != best:
+                out.append(Violation(PROP, "total grid distance is not minimal", dict(detail, total=tot, optimum=best)))
+            flat = [c for row in cost for c in row]
+            if len(set(flat)) < len(flat):
+                flags.add("cost_tie")
+            inel_v = len(sim.vehicles) > len(ev)
+            inel_r = len(sim.requests) > len(er)
+            if inel_v:
+                flags.add("ineligible_vehicle")
+            if inel_r:
+                flags.add("ineligible_request")
+            if len(ev) != len(er) and min(len(ev), len(er)) >= 2:
+                flags.add("rectangular")
+                if len(set(flat)) < len(flat) and inel_v and inel_r:
+                    flags.add("nontrivial_group")
+        if out:
+            break
+
+    return out
 
 
 def check_case(case: Dict[str, Any]) -> Tuple[List[Violation], Set[str], Dict[str, int]]:
@@ -133,75 +218,43 @@ def check_case(case: Dict[str, Any]) -> Tuple[List[Violation], Set[str], Dict[st
                 sim = ops.modify_vehicle_safe(sim, v.modify_driver_state(ds)).unwrap()
         _, instructions = Dispatcher(cfg).generate_instructions(sim, env)
         stats["dispatcher_calls"] += 1
-        # oracle
-        valid_states = {s.lower() for s in w["dispatcher"]["valid_dispatch_states"]}
-        thr = float(cfg.matching_range_km_threshold)
-        base_thr = float(cfg.base_charging_range_km_threshold)
-
-        def v_eligible(v, f) -> bool:
-            rng = env.mechatronics[v.mechatronics_id].range_remaining_km(v)
-            return (type(v.vehicle_state).__name__.lower() in valid_states and bool(v.driver_state.available)
-                    and (f is None or f in v.membership.memberships)
-                    and not (type(v.vehicle_state).__name__ == "ChargingBase" and rng < base_thr) and rng > thr)
-
-        def r_eligible(r, f) -> bool:
-            return r.dispatched_vehicle is None and (f is None or f in r.membership.memberships)
-
-        groups: Dict[Any, list] = collections.defaultdict(list)
-        for i in instructions:
-            r = sim.requests.get(i.request_id)
-            if r is None:
-                out.append(Violation(PROP, "dispatcher names a request that is not waiting", {"request": i.request_id}))
-                continue
-            f = next(iter(r.membership.memberships)) if fleets else None
-            groups[f].append(i)
-        for f in (fleets or [None]):
-            ev = [v for v in sorted(sim.vehicles.values(), key=lambda x: x.id) if v_eligible(v, f)]
-            er = [r for r in sorted(sim.requests.values(), key=lambda x: x.id) if r_eligible(r, f)]
-            g = groups.get(f, [])
-            stats["groups"] += 1
-            evi, eri = {v.id for v in ev}, {r.id for r in er}
-            detail = {"fleet": f, "eligible_vehicles": sorted(evi), "eligible_requests": sorted(eri), "pairs": [(i.vehicle_id, i.request_id) for i in g]}
-            vs_, rs_ = [i.vehicle_id for i in g], [i.request_id for i in g]
-            if len(set(vs_)) != len(vs_):
-                out.append(Violation(PROP, "a vehicle is paired twice within one fleet", detail))
-            if len(set(rs_)) != len(rs_):
-                out.append(Violation(PROP, "a request is paired twice within one fleet", detail))
-            for i in g:
-                if i.vehicle_id not in evi:
-                    v = sim.vehicles[i.vehicle_id]
-                    why = ("not a member of the fleet" if f is not None and f not in v.membership.memberships else
-                           "driver off shift" if not v.driver_state.available else
-                           "activity not dispatchable" if type(v.vehicle_state).__name__.lower() not in valid_states else "not enough range")
-                    out.append(Violation(PROP, f"an ineligible vehicle is paired ({why})", dict(detail, vehicle=i.vehicle_id)))
-                if i.request_id not in eri:
-                    out.append(Violation(PROP, "an ineligible request is paired (already assigned or other fleet)", dict(detail, request=i.request_id)))
-            if not out and len(g) != min(len(ev), len(er)):
-                out.append(Violation(PROP, "number of pairs != min(eligible vehicles, eligible requests)", detail))
-            if not out and ev and er:
-                cost = [[h3.h3_distance(v.geoid, r.geoid) for r in er] for v in ev]
-                tot = sum(h3.h3_distance(sim.vehicles[i.vehicle_id].geoid, sim.requests[i.request_id].geoid) for i in g)
-                best = optimum(cost)
-                if tot != best:
-                    out.append(Violation(PROP, "total grid distance is not minimal", dict(detail, total=tot, optimum=best)))
-                flat = [c for row in cost for c in row]
-                if len(set(flat)) < len(flat):
-                    flags.add("cost_tie")
-                inel_v = len(sim.vehicles) > len(ev)
-                inel_r = len(sim.requests) > len(er)
-                if inel_v:
-                    flags.add("ineligible_vehicle")
-                if inel_r:
-                    flags.add("ineligible_request")
-                if len(ev) != len(er) and min(len(ev), len(er)) >= 2:
-                    flags.add("rectangular")
-                    if len(set(flat)) < len(flat) and inel_v and inel_r:
-                        flags.add("nontrivial_group")
-            if out:
-                break
+        out.extend(judge(sim, env, instructions, fleets, {x.lower() for x in w["dispatcher"]["valid_dispatch_states"]}, flags, stats))
     finally:
         world.close()
     return out, flags, dict(stats)
+
+
+class C12History(__import__("hv.history", fromlist=["Monitor"]).Monitor):
+    """the same oracle on every run of the built-in Dispatcher inside whole histories (states reached by the real step
+    pipeline: requests already assigned, vehicles mid-activity, drivers flipping shifts), through the recording proxy"""
+
+    prop = PROP
+
+    def after_step(self, h, before, after, events):
+        disp = next((g for g in h.builtin_gens if g.name == "Dispatcher"), None)
+        if disp is None or disp.seen is None:
+            return
+        flags: Set[str] = set()
+        stats = collections.Counter()
+        vs = judge(disp.seen, h.env, disp.emitted, list(h.spec.get("fleet_ids") or []), set(h.env.config.dispatcher.valid_dispatch_states), flags, stats)
+        h.stats["dispatcher_runs_in_histories"] += 1
+        h.stats["history_groups"] += stats["groups"]
+        if disp.emitted:
+            h.flag("history_pairing")
+        for f in flags:
+            h.flag("h_" + f)
+        for v in vs:
+            v.key = v.key + " (in a history)"
+            yield v
+
+
+from hv import hprop  # noqa: E402
+
+HIST = hprop.HistoryProperty(
+    prop=PROP, monitors=lambda: [C12History()],
+    profile=profile(nv=(2, 8), n_requests=(10, 40), builtin=[True], fleets=[0, 0, 2, 3], socs=[0.05, 0.12, 0.3, 0.31, 0.6, 0.9, 1.0], timeouts=[300, 600]),
+    nontrivial=lambda f: "history_pairing" in f, rule="", assumptions=[], quick=(4, 60, 40), thorough=(4, 1500, 70),
+)
 
 
 def nshards(tier):
@@ -209,6 +262,8 @@ def nshards(tier):
 
 
 def shard(tier, seed, idx) -> ShardResult:
+    if idx >= 12:
+        return hprop.shard(HIST, tier, seed, idx)
     res = ShardResult()
     comp.run(PROP, st_case(), check_case, lambda f: "nontrivial_group" in f, res, cases=400 if tier == "quick" else 8000, seed=seed * 1000 + idx,
              kind="component", sample_fn=lambda c: {"vehicles": [(v["id"], v["site"], v["soc"], v["fleets"], a) for v, a in zip(c["world"]["vehicles"], c["acts"])], "requests": c["reqs"], "dispatcher": c["world"]["dispatcher"]})
@@ -216,8 +271,12 @@ def shard(tier, seed, idx) -> ShardResult:
 
 
 def replay(case):
+    if "ops" in case:
+        return hprop.replay_case(HIST, case)
     return comp.replay(PROP, check_case, case)
 
 
 def minimise(failure):
+    if "ops" in failure["case"]:
+        return hprop.minimise_and_replayable(HIST, failure)
     return failure["case"]
